@@ -29,6 +29,8 @@ def make_inputs(d, seed, k):
     w = world.standard_world(seed + k, n_chroms=2, genes_per_chrom=3, hidden=False)
     world.add_standard_reads(w, per_transcript=3, jitter=2)
     pipeline.write_world(w, d)
+    # the same annotation with every second gene described by exon records only (used by the superseded-record scenario)
+    w.write_gtf(os.path.join(d, "partial.gtf"), no_meta_genes={g.id for i_, g in enumerate(w.genes) if g.transcripts and i_ % 2 == 0})
     return set(t.id for t in w.all_transcripts())
 
 
@@ -289,7 +291,13 @@ def run(chk, scratch):
         rdir = os.path.join(scratch, "superseded%d" % qi)
         home = os.path.join(rdir, "home")
         os.makedirs(home)
-        d = os.path.join(pool, "in%d" % k)
+        # the inputs of this scenario: input k with the partly exon-only annotation (a conversion made with --complete_genedb lacks those
+        # genes, a conversion without the option infers them: C must not be handed A's database)
+        d = os.path.join(rdir, "inp")
+        os.makedirs(d)
+        for f_ in ("g.fa", "g.fa.fai", "r.bam", "r.bam.bai"):
+            os.symlink(os.path.join(pool, "in%d" % k, f_), os.path.join(d, f_))
+        shutil.copy(os.path.join(pool, "in%d" % k, "partial.gtf"), os.path.join(d, "a.gtf"))
         lst = os.path.join(rdir, "exps.list")
         with open(lst, "w") as f:
             for e in range(N_EXP):
